@@ -69,10 +69,8 @@ func setup6(args ...string) (handler.Handler6, error) {
 	opt59 = dhcpv6.OptBootFileURL(u.String())
 	params := u.Query().Get("params")
 	if params != "" {
-		opt60 = &dhcpv6.OptionGeneric{
-			OptionCode: dhcpv6.OptionBootfileParam,
-			OptionData: []byte(params),
-		}
+		// RFC 5970 §3.2: each parameter is preceded by its 16-bit length
+		opt60 = dhcpv6.OptBootFileParam(params)
 	}
 	log.Printf("loaded NBP plugin for DHCPv6.")
 	return nbpHandler6, nil
